@@ -204,7 +204,14 @@ Section Logger.
       | None => None
       | Some (nomsg1, _) =>
         if is_nil text then Some (mkL nomsg1 (l_nofail st) (l_seen st) (l_exit st), false)
-        else if mem_str text (l_seen st) then Some (mkL nomsg1 (l_nofail st) (l_seen st) (l_exit st), false)
+        else if mem_str text (l_seen st) then
+          (* a worker that drops the finding as a duplicate lets the global suppressions see it
+             as well (fix 243c78e) *)
+          match (if negb suppressed && negb use_global then list_is_suppressed pm nomsg1 e true
+                 else Some (nomsg1, false)) with
+          | None => None
+          | Some (nomsg1d, _) => Some (mkL nomsg1d (l_nofail st) (l_seen st) (l_exit st), false)
+          end
         else
           let seen1 := text :: l_seen st in
           if suppressed then Some (mkL nomsg1 (l_nofail st) seen1 (l_exit st), false)
